@@ -9,6 +9,7 @@ import (
 	"bytes"
 	"encoding/json"
 	"fmt"
+	"os"
 	"strconv"
 	"strings"
 	"time"
@@ -24,6 +25,8 @@ type c02Params struct {
 	Shard   int     `json:"shard"`
 	NShards int     `json:"nshards"`
 	Pairs   bool    `json:"pairs,omitempty"`
+	// LinesOnly: only the whole-line faults (every protocol line repeated / lost); directory transfers in the quick tier
+	LinesOnly bool `json:"lines_only,omitempty"`
 }
 
 // transcriptOf returns the unfaulted byte streams of the transfer (in-band wire or tunnel connection).
@@ -182,6 +185,11 @@ func c02Run(j vs.Job) *vs.JobResult {
 		w, res := runWorld(p.W, vs.Config{Trace: true}, nil, nil, nil)
 		v, o := c02Oracle(w, res)
 		r.Notes = append(r.Notes, fmt.Sprintf("outcome=%s srvErr=%q said=%q exit=%q fail=%q dst=%v", o, res.SrvErr, serverSaid(res.SrvStdout), res.ClientExit, res.ClientFail, res.Dst))
+		if os.Getenv("VERIF_WIRE") != "" {
+			for i := range w.c2s {
+				r.Notes = append(r.Notes, fmt.Sprintf("c2s[%d] written: %q", i, w.c2s[i].Written), fmt.Sprintf("s2c[%d] written: %q", i, w.s2c[i].Written))
+			}
+		}
 		if v != "" {
 			r.Violate("c02:"+p.W.String(), v, nil)
 		}
@@ -213,6 +221,7 @@ func c02Run(j vs.Job) *vs.JobResult {
 	}
 	r.Max("transcript_bytes", float64(len(c2s)+len(s2c)))
 	r.Max("fault_sites", float64(len(sites)))
+	nOne := 0
 	run := func(faults []wFault) bool {
 		wp := p.W
 		wp.Faults = faults
@@ -230,6 +239,13 @@ func c02Run(j vs.Job) *vs.JobResult {
 		if len(r.Samples) < 3 && o == "error" {
 			r.Samples = append(r.Samples, fmt.Sprintf("%s faults=%v -> %s (server: %q)", p.W, faults, o, clipStr(res.SrvErr, 80)))
 		}
+		if os.Getenv("VERIF_WIRE") != "" {
+			r.Notes = append(r.Notes, fmt.Sprintf("%v -> %s server said %q client exit %q fail %q dst %v", faults, o, clipStr(serverSaid(res.SrvStdout), 60), clipStr(res.ClientExit, 60), clipStr(res.ClientFail, 60), len(res.Dst)))
+		}
+		if o == "one-success" && nOne < 3 {
+			nOne++
+			r.Samples = append(r.Samples, fmt.Sprintf("%s faults=%v -> one side reports success, judged by the oracle: server said %q, client exit %q, client fail %q", p.W, faults, clipStr(serverSaid(res.SrvStdout), 80), clipStr(res.ClientExit, 80), clipStr(res.ClientFail, 80)))
+		}
 		if v != "" {
 			r.Violate("c02:"+wp.String(), wp.String()+": "+v, wp)
 			return len(r.Violations) < 3
@@ -240,6 +256,9 @@ func c02Run(j vs.Job) *vs.JobResult {
 	deadline := time.Unix(j.Deadline, 0)
 	if !p.Pairs {
 		for _, s := range sites {
+			if p.LinesOnly {
+				break
+			}
 			for _, kind := range faultKinds {
 				if k%p.NShards == p.Shard {
 					if !run([]wFault{{s.dir, s.off, kind}}) {
@@ -327,6 +346,15 @@ func init() {
 					c.Shard, c.NShards = s, n
 					jobs = append(jobs, vs.MkJob(fmt.Sprintf("single %s %d/%d", c.W.String(), s, n), c))
 				}
+			}
+			// directory transfers (entries that are complete in one NAME line), whole-line faults only
+			for _, w := range []wParams{
+				{Dir: "down", Tree: "dir", Directory: true, Protocol: 3, Timeout: 3},
+				{Dir: "up", Tree: "dir", Directory: true, Timeout: 3},
+				{Dir: "down", Tree: "dir", Directory: true, Protocol: 2, Timeout: 3},
+				{Dir: "up", Tree: "dir", Directory: true, Protocol: 3, Timeout: 3},
+			} {
+				jobs = append(jobs, vs.MkJob("lines "+w.String(), c02Params{W: w, LinesOnly: true, NShards: 1}))
 			}
 			if tier == "thorough" {
 				for _, c := range cfgs[:3] {
